@@ -9,17 +9,18 @@ def jobs(tier):
         for n in (2, 3, 4):
             J.append(job(alg, n, checks=ck))
         J.append(job(alg, 3, checks=ck, pres='list'))
+        J.append(job(alg, 5, checks=ck)); J.append(job(alg, 6, checks=ck, order='desc'))
     for alg in ('greedy', 'roundrobin'):
-        for (n, k) in ((3, 2), (4, 2), (4, 3), (2, 3)):
+        for (n, k) in ((3, 2), (4, 2), (4, 3), (2, 3), (5, 2), (5, 3)):
             J.append(pjob(alg, n, k))
-        J.append(pjob(alg, 3, 2, pres='list'))
+        J.append(pjob(alg, 3, 2, pres='list')); J.append(pjob(alg, 6, 3, order='desc'))
     if tier == 'thorough':
         for alg in ('ff', 'bf', 'ffd', 'bfd', 'cdec', 'c23', 'c34'):
-            J.append(job(alg, 5, checks=ck)); J.append(job(alg, 6, checks=ck, order='desc'))
+            J.append(job(alg, 7, checks=ck, order='desc')); J.append(job(alg, 6, checks=ck, mandatory=False))
         for alg in ('greedy', 'roundrobin'):
-            J.append(pjob(alg, 5, 2)); J.append(pjob(alg, 5, 3)); J.append(pjob(alg, 6, 3, order='desc'))
+            J.append(pjob(alg, 6, 2)); J.append(pjob(alg, 7, 3, order='desc')); J.append(pjob(alg, 6, 4, order='desc'))
     return J
 
 
 ASSUMPTIONS = ['S1 numpy shim', 'S2 exact arithmetic', 'reference transcriptions in models/reference.py (written from the cited definitions)']
-OUTSIDE = ['more than 4 (quick) / 6 (thorough) items']
+OUTSIDE = ['more than 6 (quick) / 7 (thorough) items']
